@@ -10,3 +10,10 @@ package program
 
 // ---- C16 ----
 //vc:maprange[C16] LoadConfig 1 "for key, val := range defaultVals" first-match inserts default values under their own key; an error is impossible for the constant defaults
+
+// ---- C17: the credentials file is quoted in no error text ----
+//vc:func (*Config).getSystemPassword
+//vc:  hypothesis[C17] secretFree(c.BaseDir) && secretFree(name)
+// the first field of a credentials line is the device name pattern, not a secret
+//vc:  assume at "path.Match(parts[0], name)" secretFree(arg0)
+//vc:  ensures[C17] @errorsDoNotQuoteCredentials result2 != nil ==> cleanAny(result2)
